@@ -1088,6 +1088,193 @@ func handoffCase(c conf, st *stats) string {
 	return fmt.Sprintf("ctor=ok rounds=%d early=%d cstart=%d hangs=%d badround=%d", done, early, cstart, hangs, badRound)
 }
 
+// gburstCase (C10): "gated burst release above coreGo with a short backlog".  initGo < coreGo < maxGo, idle
+// timers that cannot expire (idle=0 = one hour).  Per trial: `gated` tasks that spin on a common gate
+// plus `small` tasks are queued before Start (mode=pre: Start creates the workers) or submitted right
+// after it (mode=post: growth by backlog); when every live worker holds a gated task the gate is opened
+// (spin barrier: the workers finish together and take the surplus-worker decision at the same instant).
+// Then (1) every small task must run within `patience` — nobody shuts the pool down, its idle timers
+// cannot expire, so a running pool has to execute its queue (`late` = tasks that did not); (2) white-box:
+// the live-worker count may only fall through the above-core exit, which never goes below coreGo, so at
+// rest totalGo >= min(coreGo, peak totalGo seen) (`floorviol` = trials violating this model invariant,
+// c10_core_floor).  Each trial ends with ShutdownNow and the exactly-once accounting (`lost`, `dup`).
+func gburstCase(c conf, st *stats) string {
+	trials, gated, small := c.i("trials", 1000), c.i("gated", 8), c.i("small", 1)
+	mode := c.str("mode", "pre")
+	patience := time.Duration(c.i("patience", 3000)) * time.Millisecond
+	late, floorviol, lost, dup, incon, badTrial, done := 0, 0, 0, 0, 0, -1, 0
+	badLow, badPeak, core := -1, -1, -1
+	for tr := 0; tr < trials && badTrial < 0; tr++ {
+		done++
+		p, err := mkPool(c)
+		if err != nil || p == nil {
+			return "ctor=" + pool.VerifErrKind(err)
+		}
+		e := newEnv(p)
+		if hs := p.VerifSnapshot(); hs.State >= 0 {
+			core = int(hs.CoreGo)
+		}
+		var gate, entered int32
+		var smalls []*vtask
+		submitAll := func() string {
+			for i := 0; i < gated; i++ {
+				t := e.newTask("ext")
+				t.body = func() {
+					atomic.AddInt32(&entered, 1)
+					for atomic.LoadInt32(&gate) == 0 {
+					}
+				}
+				if t.sub = pool.VerifErrKind(p.Submit(context.Background(), t)); t.sub != "ok" {
+					return t.sub
+				}
+			}
+			for i := 0; i < small; i++ {
+				t := e.newTask("ret")
+				if t.sub = pool.VerifErrKind(p.Submit(context.Background(), t)); t.sub != "ok" {
+					return t.sub
+				}
+				smalls = append(smalls, t)
+			}
+			return ""
+		}
+		atomic.StoreInt32(&e.started, 1)
+		msg := ""
+		if mode == "pre" {
+			atomic.StoreInt32(&e.started, 0)
+			msg = submitAll()
+			atomic.StoreInt32(&e.started, 1)
+			if err := p.Start(); err != nil {
+				return "start=" + pool.VerifErrKind(err)
+			}
+		} else {
+			if err := p.Start(); err != nil {
+				return "start=" + pool.VerifErrKind(err)
+			}
+			msg = submitAll()
+		}
+		if msg != "" {
+			atomic.StoreInt32(&gate, 1)
+			return "submit=" + msg
+		}
+		// wait until every live worker holds a gated task (or all gated tasks are held)
+		peak := -1
+		t0 := time.Now()
+		ready := false
+		for time.Since(t0) < 2*time.Second {
+			hs := p.VerifSnapshot()
+			if int(hs.TotalGo) > peak {
+				peak = int(hs.TotalGo)
+			}
+			n := int(atomic.LoadInt32(&entered))
+			if n >= gated || (hs.State >= 0 && n >= int(hs.TotalGo) && n > 0 && time.Since(t0) > 300*time.Microsecond) {
+				ready = true
+				break
+			}
+			if hs.State < 0 && n > 0 && time.Since(t0) > 2*time.Millisecond {
+				ready = true
+				break
+			}
+			runtime.Gosched()
+		}
+		atomic.StoreInt32(&gate, 1)
+		if !ready {
+			incon++
+		}
+		// (1) the small tasks run
+		t1 := time.Now()
+		allRan := false
+		for time.Since(t1) < patience {
+			allRan = true
+			for _, t := range smalls {
+				if atomic.LoadInt64(&t.fin) == 0 {
+					allRan = false
+				}
+			}
+			if allRan {
+				break
+			}
+			if time.Since(t1) > time.Millisecond {
+				time.Sleep(50 * time.Microsecond)
+			} else {
+				runtime.Gosched()
+			}
+		}
+		bad := false
+		if !allRan {
+			for _, t := range smalls {
+				if atomic.LoadInt64(&t.fin) == 0 {
+					late++
+				}
+			}
+			bad = true
+		}
+		// (2) at rest the worker count is not below min(coreGo, peak)
+		low := -1
+		if hs := p.VerifSnapshot(); hs.State >= 0 && ready {
+			prev, same := int(hs.TotalGo), 0
+			t2 := time.Now()
+			for time.Since(t2) < 20*time.Millisecond && same < 4 {
+				for k := 0; k < 8; k++ {
+					runtime.Gosched()
+				}
+				cur := int(p.VerifSnapshot().TotalGo)
+				if cur == prev {
+					same++
+				} else {
+					prev, same = cur, 0
+				}
+			}
+			low = prev
+			floor := core
+			if peak < floor {
+				floor = peak
+			}
+			if low < floor {
+				floorviol++
+				bad = true
+				badLow, badPeak = low, peak
+			}
+		}
+		// teardown with the accounting
+		ts, err2 := p.ShutdownNow()
+		if err2 == nil {
+			runMarked(ts)
+		}
+		for t3 := time.Now(); time.Since(t3) < 5*time.Millisecond; {
+			if poolState(p).goCnt == 0 {
+				break
+			}
+			runtime.Gosched()
+		}
+		settled := true
+		if !poolState(p).wb {
+			settled = bbSettled(e, 1500*time.Millisecond, 8*time.Second)
+		}
+		if settled {
+			for _, t := range e.tasks {
+				if t.sub != "ok" {
+					continue
+				}
+				n := int(atomic.LoadInt32(&t.runs)) + int(atomic.LoadInt32(&t.marked))
+				if n > 1 {
+					dup++
+					bad = true
+				}
+				if n == 0 && (poolState(p).wb && poolState(p).goCnt == 0 || !poolState(p).wb) {
+					lost++
+					bad = true
+				}
+			}
+		}
+		if bad {
+			badTrial = tr
+		}
+		st.Tasks += len(e.tasks)
+	}
+	return fmt.Sprintf("ctor=ok trials=%d late=%d floorviol=%d lost=%d dup=%d incon=%d core=%d badlow=%d badpeak=%d badtrial=%d",
+		done, late, floorviol, lost, dup, incon, core, badLow, badPeak, badTrial)
+}
+
 // idleSubCase (C10): "submit aimed at an idle-timer expiry while all other workers are busy".
 // initGo < coreGo, short maxIdleTime; the initGo permanent workers are blocked in long tasks, so every
 // further task is served by an on-demand worker that carries an idle timer after each task.  `iters`
@@ -1230,7 +1417,7 @@ func idleSubCase(c conf, st *stats) string {
 
 // directedFailed: a directed scenario line that stopped at a violating round / iteration
 func directedFailed(res string) bool {
-	for _, k := range []string{"badrep=", "badround=", "badit="} {
+	for _, k := range []string{"badrep=", "badround=", "badit=", "badtrial="} {
 		if i := strings.Index(res, k); i >= 0 && !strings.HasPrefix(res[i+len(k):], "-1") {
 			return true
 		}
@@ -1316,6 +1503,16 @@ func run(ops []string, out *vlib.Out, st *stats) {
 				out.Line("%s => %s", line, res)
 				if directedFailed(res) {
 					skipping = true // a self-evident violation was found: do not spend time on the rest
+				}
+			case "gburst":
+				var res string
+				pn := vlib.Catch(func() { res = gburstCase(c, st) })
+				if pn != "" {
+					res = pn
+				}
+				out.Line("%s => %s", line, res)
+				if directedFailed(res) {
+					skipping = true
 				}
 			case "handoff":
 				var res string
